@@ -43,6 +43,8 @@ def gen_inputs(rng, styled_p=0.5, out_p=0.0, max_models=2):
         return [("Root", gen.gen_nested_containers(rng))]
     if r < 0.62:
         return [("Root", [gen.gen_empty_vs_concrete_merge(rng)])]
+    if r < 0.66:
+        return [("Root", [gen.gen_one_pass_residue(rng)])]
     n = rng.choice([1] * 3 + [2] * (max_models > 1))
     kp = gen.key_pool(rng, styled_p, out_p)
     out = []
